@@ -81,5 +81,30 @@ theorem expectation_bilinear (φ : R →ₗ[K] K) (hφ : φ 1 = 1) (c : K) (o1 :
   · apply sum_congr rfl; intro p _; apply sum_congr rfl; intro q _
     apply sum_congr rfl; intro r _; apply sum_congr rfl; intro s _; ring
 
+theorem map_dl_mul (φ : R →ₗ[K] K) (i j : Nat) (x : R) : φ ((dl i j : R) * x) = if i = j then φ x else 0 := by
+  rw [dl_mul]; by_cases h : i = j <;> simp [h]
+
+theorem map_dl_dl (φ : R →ₗ[K] K) (hφ : φ 1 = 1) (i j k l : Nat) :
+    φ ((dl i j : R) * (dl k l : R)) = if i = j ∧ k = l then 1 else 0 := by
+  unfold dl; by_cases h : i = j <;> by_cases h' : k = l <;> simp [h, h', hφ]
+
+/-- `map_two_pdm_to_particle_hole_dm` is correct for every state: with `D = φ(a†a)`, `Γ = φ(a†a†aa)`,
+`φ(a†_p a_r a†_q a_s) = δ_qr D_ps − Γ_pqrs` -/
+theorem particle_hole_expectation (hc : CAR n ad a) (φ : R →ₗ[K] K) (p q r s : Nat) (hq : q < n) (hr : r < n) :
+    φ (ad p * a r * ad q * a s) = (if q = r then φ (ad p * a s) else 0) - φ (ad p * ad q * a r * a s) := by
+  rw [particle_hole hc p q r s hq hr, map_sub, map_dl_mul]
+
+/-- `map_two_pdm_to_two_hole_dm` is correct for every state: exactly the formula of the code
+`tqdm[s,r,q,p] = tpdm[p,q,r,s] − term1 − term2 − term3` -/
+theorem two_hole_expectation (hc : CAR n ad a) (φ : R →ₗ[K] K) (hφ : φ 1 = 1) (p q r s : Nat)
+    (hp : p < n) (hq : q < n) (hr : r < n) (hs : s < n) :
+    φ (a s * a r * ad q * ad p) =
+      φ (ad p * ad q * a r * a s)
+        - ((if q = r then φ (ad p * a s) else 0) + (if p = s then φ (ad q * a r) else 0))
+        + ((if p = r then φ (ad q * a s) else 0) + (if q = s then φ (ad p * a r) else 0))
+        - ((if q = s ∧ p = r then (1 : K) else 0) - (if p = s ∧ q = r then 1 else 0)) := by
+  rw [two_hole hc p q r s hp hq hr hs]
+  simp only [map_sub, map_add, map_dl_mul, map_dl_dl φ hφ]
+
 end Car
 end OFV
